@@ -5,7 +5,7 @@
    _is_attribute_equality_join / _handle_attribute_equality_join / _translate_comparator_operand /
    _handle_contains_operator / OperatorMapper / DomainValueExtractor / translate_attribute /
    _walk_attribute_chain / _apply_relationship_join / translate_truth_value / JoinManager
-   (tree at c0600cf: after all C07 fix: commits; pinned by pins/eqlsql.json).
+   (tree at 7ef093b: after all C07 fix: commits; pinned by pins/eqlsql.json).
    Kept behaviours outside the property: an ordering comparison or a relationship hop that meets None follows SQL
    (row dropped) where Python raises (C07-b2); related entities are compared by foreign key, i.e. by identity,
    not by the classes' __eq__ (C07-j). *)
@@ -24,9 +24,13 @@ Definition encode (sc : schema) (w : world) : db := fun c => map row_of (instanc
 Record jm := {
   j_paths : list ((nat * Z) * nat);   (* aliases_by_path: (FROM element, relationship name) -> alias *)
   j_inst : list (Z * nat);            (* joined_tables: targets of equality joins, with their table instance *)
-  j_joins : list join
+  j_tvar : list (Z * Z);              (* joined_variables: the variable each joined table stands for *)
+  j_joins : list join;
+  j_io : bool                         (* or_depth > 0 *)
 }.
-Definition jm0 : jm := Build_jm [] [] [].
+Definition jm0 : jm := Build_jm [] [] [] [] false.
+Definition set_io (b : bool) (st : jm) : jm :=
+  {| j_paths := j_paths st; j_inst := j_inst st; j_tvar := j_tvar st; j_joins := j_joins st; j_io := b |}.
 
 Inductive tr (A : Type) :=
 | ROk (a : A) (st : jm)
@@ -48,8 +52,9 @@ Definition alias_for (st : jm) (src : nat) (a tgt : Z) : nat * jm :=
   | Some i => (i, st)
   | None =>
       let i := S (length (j_joins st)) in
-      (i, {| j_paths := ((src, a), i) :: j_paths st; j_inst := j_inst st;
-             j_joins := j_joins st ++ [JRel src a tgt] |})
+      (* a join made inside an or_ is an outer join: another alternative may hold for a row whose relationship is None *)
+      (i, {| j_paths := ((src, a), i) :: j_paths st; j_inst := j_inst st; j_tvar := j_tvar st;
+             j_joins := j_joins st ++ [JRel (j_io st) src a tgt]; j_io := j_io st |})
   end.
 
 (* _walk_attribute_chain *)
@@ -99,6 +104,15 @@ Definition enum_end (sc : schema) (c : Z) (chain : list Z) : bool :=
   | Some (c', a) => existsb (fun p => (fst p =? c') && (snd p =? a)) (sc_enums sc)
   | None => false
   end.
+Definition col_in (l : list (Z * Z)) (e : option (Z * Z)) : bool :=
+  match e with Some (c, a) => existsb (fun p => (fst p =? c) && (snd p =? a)) l | None => false end.
+(* mismatched(column, value): text against a numeric column, a number against a text column (an Enum member is no text) *)
+Definition mismatch_lit (sc : schema) (c : Z) (chain : list Z) (v : val) : bool :=
+  match v with
+  | VStr s => negb (is_enum s) && col_in (sc_nums sc) (chain_end sc c chain)
+  | VInt _ => col_in (sc_texts sc) (chain_end sc c chain)
+  | _ => false
+  end.
 Definition attr_name : Z := 1.      (* harness: "name" *)
 Definition attr_id_ : Z := 2.       (* harness: "id_" *)
 
@@ -118,12 +132,7 @@ Section Translate.
     | OAttr v chain => tattr st v chain
     | OLit c => ROk (SConst c) st
     | OList _ => RUnmod
-    | OVar v =>
-        match assoc v vars with
-        | None => RReject
-        | Some c =>
-            RReject                                      (* DomainExtractionError: a variable over mapped entities is no operand *)
-        end
+    | OVar _ => RReject                                  (* DomainExtractionError: a variable stands for its whole domain *)
     end.
 
   (* _is_relationship_valued *)
@@ -142,6 +151,18 @@ Section Translate.
     | OAttr v ch => match assoc v vars with Some c => enum_end sc c ch | None => false end
     | _ => false
     end.
+  (* mismatched(column, value) for a literal operand / element against a column operand *)
+  Definition operand_mismatch (x : operand) (v : val) : bool :=
+    match x with
+    | OAttr vv ch => match assoc vv vars with Some c => mismatch_lit sc c ch v | None => false end
+    | _ => false
+    end.
+  Definition lit_mismatch (x y : operand) : bool :=
+    match y with OLit v => operand_mismatch x v | _ => false end.
+  (* membership(column, values): a None element is searched with IS NULL *)
+  Definition is_null (c : val) : bool := match c with VNull => true | _ => false end.
+  Definition mk_in (a : sexpr) (cs : list val) : spred :=
+    if existsb is_null cs then SOr (SIsNull false a) (SIn a (filter (fun c => negb (is_null c)) cs)) else SIn a cs.
   (* a bare variable whose class has a name (and no id_): DomainValueExtractor finds its first domain element's row by name *)
   Definition named_var (x : operand) : bool :=
     match x with
@@ -175,27 +196,34 @@ Section Translate.
      an or_ the target is joined ON true, and whenever the target is joined already, the equality is an ordinary condition *)
   Definition teqjoin (io : bool) (st : jm) (op : cmpop) (l r : operand) : option (tr (option spred)) :=
     match op, l, r with
-    | OEq, OAttr v1 ch1, OAttr v2 ch2 =>
+    | OEq, OAttr v1 [a1], OAttr v2 [a2] =>               (* one hop on each side: the foreign keys of the variables' own tables *)
         if v1 =? v2 then None else
-        match assoc v1 vars, assoc v2 vars, last_of ch1, last_of ch2 with
-        | Some c1, Some c2, Some a1, Some a2 =>
+        match assoc v1 vars, assoc v2 vars with
+        | Some c1, Some c2 =>
             match field_kind sc c1 a1, field_kind sc c2 a2 with
             | Some (FRel _), Some (FRel _) =>
-                if (c1 =? root) || (c2 =? root) then
-                  let '(target, tfk, afk) := if c1 =? root then (c2, a2, a1) else (c1, a1, a2) in
+                if (v1 =? sel) || (v2 =? sel) then
+                  let '(target, tv, tfk, afk) := if v1 =? sel then (c2, v2, a2, a1) else (c1, v1, a1, a2) in
                   if related sc target root then Some RReject       (* self joins are not supported *)
                   else match assoc target (j_inst st) with
-                       | Some ti => Some (ROk (Some (SCmp OEq (SCol ti tfk) (SCol 0%nat afk))) st)
+                       | Some ti =>
+                           match assoc target (j_tvar st) with
+                           | Some tv' => if tv' =? tv then Some (ROk (Some (SCmp OEq (SCol ti tfk) (SCol 0%nat afk))) st)
+                                         else Some RReject          (* two variables of one type joined to the selected one *)
+                           | None => Some RReject
+                           end
                        | None =>
                            let ti := S (length (j_joins st)) in
                            Some (ROk (if io then Some (SCmp OEq (SCol ti tfk) (SCol 0%nat afk)) else None)
                                      {| j_paths := j_paths st; j_inst := (target, ti) :: j_inst st;
-                                        j_joins := j_joins st ++ [if io then JCross target else JEq target tfk 0%nat afk] |})
+                                        j_tvar := (target, tv) :: j_tvar st;
+                                        j_joins := j_joins st ++ [if io then JCross true target else JEq target tfk 0%nat afk];
+                                        j_io := j_io st |})
                        end
                 else Some RReject                                   (* needs the selected variable on one side *)
             | _, _ => None
             end
-        | _, _, _, _ => None
+        | _, _ => None
         end
     | _, _, _ => None
     end.
@@ -210,7 +238,8 @@ Section Translate.
         | ROk a st1 =>
             match toperand st1 r with
             | ROk b st2 =>
-                if negb (eqne op) && (enum_col l || enum_col r) then RReject     (* Enum members have no order *)
+                if lit_mismatch l r || lit_mismatch r l then RReject             (* text against number *)
+                else if negb (eqne op) && (enum_col l || enum_col r) then RReject     (* Enum members have no order *)
                 else match mk_cmp op a b with Some p => ROk (Some p) st2 | None => RReject end
             | RReject => RReject | RCrash => RCrash | RUnmod => RUnmod
             end
@@ -224,12 +253,16 @@ Section Translate.
     match ct, it with
     | OList cs, OAttr v chain =>
         match tattr st v chain with
-        | ROk a st1 => ROk (Some (SIn a cs)) st1
+        | ROk a st1 => if existsb (operand_mismatch (OAttr v chain)) cs then RReject else ROk (Some (mk_in a cs)) st1
         | RReject => RReject | RCrash => RCrash | RUnmod => RUnmod
         end
     | OLit c, OAttr v chain =>
         match tattr st v chain with
-        | ROk a st1 => ROk (Some (match c with VStr s => SInstr s a | _ => SIn a [c] end)) st1
+        | ROk a st1 =>
+            match c with
+            | VStr s => ROk (Some (SInstr s a)) st1
+            | _ => if operand_mismatch (OAttr v chain) c then RReject else ROk (Some (mk_in a [c])) st1
+            end
         | RReject => RReject | RCrash => RCrash | RUnmod => RUnmod
         end
     | OAttr v chain, OLit (VStr s) =>
@@ -255,8 +288,8 @@ Section Translate.
   (* translate_query; [io] = or_depth > 0 *)
   Fixpoint tcond (io : bool) (st : jm) (c : cond) : tr (option spred) :=
     match c with
-    | CCmp op l r => tcmp io st op l r
-    | CContains ct it => tcontains st ct it
+    | CCmp op l r => tcmp io (set_io io st) op l r
+    | CContains ct it => tcontains (set_io io st) ct it
     | CAnd p q =>
         match tcond io st p with
         | ROk a st1 => match tcond io st1 q with
@@ -275,12 +308,13 @@ Section Translate.
         end
     | CNot _ => RReject                                   (* UnsupportedQueryTypeError *)
     | CTruth (OAttr v chain) =>                           (* translate_truth_value *)
-        match tattr st v chain with
+        match tattr (set_io io st) v chain with
         | ROk a st1 => ROk (Some (STruth a)) st1
         | RReject => RReject | RCrash => RCrash | RUnmod => RUnmod
         end
     | CTruth _ => RReject
-    | CInSet cs it => tcontains st (OList cs) it         (* set / frozenset containers are unwrapped like lists *)
+    | CInSet cs it => tcontains (set_io io st) (OList cs) it   (* any non-text iterable container is unwrapped like a list *)
+    | COther => RReject                                   (* UnsupportedQueryTypeError: unknown operand type *)
     end.
 End Translate.
 
@@ -394,14 +428,18 @@ Definition operand_shape (sc : schema) (sel root : Z) (x : operand) : bool :=
   | _ => false
   end.
 Definition none_lit (x : operand) : bool := match x with OLit VNull => true | _ => false end.
+Definition mismatch_op (sc : schema) (root : Z) (l r : operand) : bool :=
+  match l, r with OAttr _ ch, OLit v => mismatch_lit sc root ch v | _, _ => false end.
 Definition enum_op (sc : schema) (root : Z) (x : operand) : bool :=
   match x with OAttr _ ch => enum_end sc root ch | _ => false end.
 Fixpoint cond_shape (sc : schema) (sel root : Z) (c : cond) : bool :=
   match c with
   | CCmp op (OAttr v ch) r =>
       operand_shape sc sel root (OAttr v ch) && operand_shape sc sel root r && (eqne op || negb (none_lit r)) &&
-      (eqne op || negb (enum_op sc root (OAttr v ch) || enum_op sc root r))
-  | CContains (OList cs) (OAttr v ch) | CInSet cs (OAttr v ch) => operand_shape sc sel root (OAttr v ch) && forallb scalar_val cs
+      (eqne op || negb (enum_op sc root (OAttr v ch) || enum_op sc root r)) &&
+      negb (mismatch_op sc root (OAttr v ch) r)
+  | CContains (OList cs) (OAttr v ch) | CInSet cs (OAttr v ch) =>
+      operand_shape sc sel root (OAttr v ch) && forallb scalar_val cs && negb (existsb (mismatch_lit sc root ch) cs)
   | CTruth (OAttr v ch) => operand_shape sc sel root (OAttr v ch)
   | CAnd p q | COr p q => cond_shape sc sel root p && cond_shape sc sel root q
   | _ => false
@@ -470,7 +508,7 @@ Definition f07j (sc : schema) (q : query) (w : world) : bool :=
   match q_vars q, q_cond q with
   | [(v, root); (v2, c2)], Some c =>
       negb (q_setof q) && (v =? q_sel q) && negb (v2 =? v) && negb (related sc c2 root) && cond_shape2 sc v root v2 c2 c && has_join v v2 c &&
-      nodup_z (map o_key w) &&
+      nodup_z (map o_key w) && negb (match instances sc w c2 with [] => true | _ => false end) &&
       forallb (fun o => forallb (fun t => cond_ok2 sc w v root v2 o t c) (instances sc w c2)) (instances sc w root)
   | _, _ => false
   end.
@@ -485,6 +523,7 @@ Fixpoint cond_operands (c : cond) : list operand :=
   | CNot p => cond_operands p
   | CTruth o => [o]
   | CInSet _ it => [it]
+  | COther => []
   end.
 Fixpoint has_not (c : cond) : bool :=
   match c with CNot _ => true | CAnd p q | COr p q => has_not p || has_not q | _ => false end.
